@@ -436,6 +436,10 @@ func c10Run(k *fw.K, actions []c08action, scribble bool) (h *c08hist, ex *c10exe
 				ok = h.doBackprop(a.Target)
 			case "reset":
 				ok = h.doReset(a.Target, a.Flag)
+			case "reject":
+				ok = h.doReject(a.Instr.Dim, a.Instr.In[0], a.Instr.In[1])
+			case "adopt-gradient":
+				ok = h.doAdopt(a.Target, a.Flag)
 			}
 			if !ok {
 				return h, ex, false
@@ -446,6 +450,10 @@ func c10Run(k *fw.K, actions []c08action, scribble bool) (h *c08hist, ex *c10exe
 	steps := 8 + k.Rng.Intn(50)
 	for s := 0; s < steps && ok && len(h.nodes) < 45; s++ {
 		switch q := k.Rng.Intn(10); {
+		case len(h.nodes) >= 3 && q == 9 && k.Rng.Intn(2) == 0:
+			ok = h.doReject(k.Rng.Intn(64), k.Rng.Intn(len(h.nodes)), k.Rng.Intn(len(h.nodes)))
+		case len(h.nodes) >= 3 && q == 9 && k.Rng.Intn(2) == 0:
+			ok = h.doAdopt(k.Rng.Intn(len(h.nodes)), k.Rng.Intn(2) == 0)
 		case len(h.nodes) >= 3 && q < 2:
 			t := k.Rng.Intn(len(h.nodes))
 			if h.backpropAllowed(t) {
